@@ -503,6 +503,7 @@ def gateway_coef_sign(W, ci, centrality_type='degree'):
     _, ci = np.unique(ci, return_inverse=True)
     ci += 1
     n = len(W)
+    W = W.copy()
     np.fill_diagonal(W, 0)
 
     def gcoef(W):
